@@ -141,7 +141,7 @@ Definition pass_mixed (old new : pyv) (cs : list val) : res (list val) :=
 Definition pass_numeric (kd : kind) (old new : pyv) (cs : list val) : res (list val) :=
   if negb (is_number old) then Raise TypeError else
   bind (np_store kd new) (fun x =>
-    Ok (map (fun c => if (if pyv_is_nan old then is_nan_val c else py_eq old (pyv_of_val c)) then x else c) cs)).
+    Ok (map (fun c => if k_replace_mask (pyv_is_nan old) (is_nan_val c) (py_eq old (pyv_of_val c)) then x else c) cs)).
 Definition pass (kd : kind) (old new : pyv) (cs : list val) : res (list val) :=
   match kd with KMixed => pass_mixed old new cs | _ => pass_numeric kd old new cs end.
 Fixpoint replace_model (kd : kind) (m : list (pyv * pyv)) (cs : list val) : res (list val) :=
@@ -169,14 +169,31 @@ Fixpoint mem_cn (n : string) (l : list cn) : bool :=
   | CStr m :: r => String.eqb n m || mem_cn n r
   | _ :: r => mem_cn n r
   end.
-(* wrapped: the call was keep_only(dm, [a, b, ...]) with one list argument *)
-Definition keep_model (t : tbl) (wrapped : bool) (args : list karg) : res tbl :=
-  let args' := if wrapped then (if k_keep_unwrap 1 true then args else [AOther])
+(* wrapped: the call was keep_only(dm, [a, b, ...]) with one list argument.
+   The skeleton is shared by the two argument representations: cnf is _colname, other an object that is no column *)
+Definition keep_gen {A} (cnf : A -> res cn) (other : A) (t : tbl) (wrapped : bool) (args : list A) : res tbl :=
+  let args' := if wrapped then (if k_keep_unwrap 1 true then args else [other])
                else (if k_keep_unwrap (zlen args) false then [] else args) in
-  bind (map_res colname args') (fun colnames =>
+  bind (map_res cnf args') (fun colnames =>
   if existsb is_clist colnames then Raise TypeError else
   Ok {| tlen := tlen t;
         tcols := filter (fun c => negb (k_keep_delete (mem_cn (cname c) colnames))) (tcols t) |}).
+Definition keep_model (t : tbl) (wrapped : bool) (args : list karg) : res tbl := keep_gen colname AOther t wrapped args.
+
+(* The same with column OBJECTS resolved inside the model (Spec.oarg): BaseColumn.name walks the columns of the
+   object's own DataMatrix and keeps the names held by this very object; _colname dispatches on str / column. *)
+Definition names_of (self : nat) (owner : list (string * nat)) : list string :=
+  map fst (filter (fun nc => k_name_keep (Nat.eqb (snd nc) self)) owner).
+Definition name_prop (self : nat) (owner : list (string * nat)) : cn :=
+  let l := names_of self owner in
+  if k_name_none (zlen l) then CNone
+  else if k_name_single (zlen l) then CStr (hd EmptyString l) else CList l.
+Definition colname_obj (a : oarg) : res cn :=
+  k_colname (match a with OStr _ => true | _ => false end)
+            (match a with OColumn _ _ => true | _ => false end)
+            (match a with OStr s => CStr s | _ => CNone end)
+            (match a with OColumn self owner => name_prop self owner | _ => CNone end).
+Definition keep_model_obj (t : tbl) (wrapped : bool) (args : list oarg) : res tbl := keep_gen colname_obj OOther t wrapped args.
 
 (* ---------------------------------------------------------------- z *)
 (* over the numeric cells xs, with s standing for col.std (the square root is not computed here) *)
